@@ -183,6 +183,7 @@ class Dict(Node):
         self.k = BOT
         self.v = BOT
         self.factory: AV | None = None  # defaultdict
+        self.cls: ClassInfo | None = None  # repo class deriving from dict
         self.alloc: ast.AST | None = None
         self.fields: dict[str, AV] | None = None  # per constant key (groupdict-like / literal keys)
 
@@ -325,6 +326,7 @@ class Site:
     how: str  # finditer | findall | search | match | fullmatch | split | sub
     fi: FuncInfo
     node: ast.AST
+    calls: set = field(default_factory=set)  # distinct (subject, start position) combinations seen while folding
 
 
 @dataclass
@@ -597,6 +599,11 @@ class Interp:
     def lookup(self, name: str, env: dict, fr: Frame) -> AV:
         if name in env:
             return env[name]
+        if fr.fi is None and fr.cls is not None:
+            # expression in a class body: names of the class namespace come first
+            cv = self._class_attr(fr.cls, name, fr, None)
+            if cv is not None:
+                return cv
         v = self.module_value(fr.mod, name, fr)
         g = self.globals_store.get((fr.mod.name, name))
         if g is not None:
@@ -1454,7 +1461,7 @@ class Interp:
         return replace(ref(s), src=src)
 
     def e_List(self, e, env, fr):
-        if isinstance(getattr(e, "ctx", None), ast.Load) and e.elts and not any(isinstance(x, ast.Starred) for x in e.elts) and len(e.elts) <= 8:
+        if isinstance(getattr(e, "ctx", None), ast.Load) and e.elts and not any(isinstance(x, ast.Starred) for x in e.elts) and len(e.elts) <= 64:
             s = self.seq(fr, e, "list")
             items = [self.ev(x, env, fr).plain() for x in e.elts]
             s.items = items if s.items is None else [join(a, b) for a, b in zip(s.items, items)]
@@ -1889,7 +1896,13 @@ class Interp:
                     outs.append(n.fields[ck.v])
                 else:
                     outs.append(replace(via(n.v), src=frozenset({(n, key_text)})))
-                if n.factory is not None:
+                missing = self.repo.lookup_method(n.cls, "__missing__") if n.cls is not None else None
+                if missing is not None:
+                    try:
+                        outs.append(self.call_function(missing, [ref(n), k], {}, fr, e, bound=True))
+                    except _Dead:
+                        self.raise_("builtins.KeyError", "may", ("absent", frozenset({n}), key_text))
+                elif n.factory is not None:
                     made = self.call_value(n.factory, [], {}, fr, e, tag=("factory", n.key))
                     self.grow_dict(n, k, made)
                     outs.append(made)
@@ -1942,6 +1955,17 @@ class Interp:
                 if (fi.is_property or "cached_property" in fi.decorators) and self_av is not None:
                     return self.call_function(fi, [self_av], {}, fr, fi.node, bound=True)
                 return ref(self.memo(("m", fi.fq, self_av), lambda: Func(("m", fi.fq, self_av), fi, self_av)))
+            if attr in c.class_attrs and not attr.startswith("_") and any(b.split(".")[-1] in ("Enum", "IntEnum", "StrEnum", "Flag", "IntFlag") for b in self.repo.external_bases(c)):
+                # member of an Enum class: an object with .name and .value
+                member = self.node(("enum", c.fq, attr), lambda: Rec(("enum", c.fq, attr), c))
+                if "value" not in member.fields:
+                    member.fields["name"] = const(attr)
+                    member.fields["value"] = BOT
+                    try:
+                        self.grow_field(member, "value", self.ev(c.class_attrs[attr], {}, Frame(None, c.module, ("enum", c.fq, attr), cls=c, depth=fr.depth + 1)))
+                    except _Dead:
+                        pass
+                return ref(member)
             if attr in c.class_attrs:
                 key = ("classattr", c.fq, attr)
                 if key not in self._consts_memo:
@@ -1991,6 +2015,8 @@ class Interp:
                 om = self.repo.modules.get(n.what[7:])
                 v = self.module_value(om, e.attr, fr) if om is not None else None
                 outs.append(v if v is not None else self.unknown_value(f"{n.what}.{e.attr}"))
+            elif isinstance(n, Dict) and n.cls is not None and self.class_attr(n.cls, e.attr, fr, ref(n)) is not None:
+                outs.append(self.class_attr(n.cls, e.attr, fr, ref(n)))
             elif isinstance(n, Super):
                 mro = [c for sn in n.self_av.refs if isinstance(sn, (Rec, Cls)) for c in self.repo.mro(sn.cls if isinstance(sn, Rec) else sn.ci)]
                 after = mro[mro.index(n.after) + 1 :] if n.after in mro else self.repo.mro(n.after)[1:]
@@ -2161,10 +2187,26 @@ class Interp:
         meth = self.attribute(obj, ast.Attribute(value=ast.Constant(value=None), attr=names[0], ctx=ast.Load()), env or {}, fr)
         return self.call_value(meth, list(n.args[1:]), dict(n.kwargs), fr, e, tag=("methodcaller", n.key), env=env)
 
+    def _construct_mapping(self, ci: ClassInfo, init, args: list[AV], kwargs: dict, fr: Frame, e: ast.AST) -> AV | None:
+        """Instances of repo classes deriving from dict are dicts (with the class's __missing__ and methods)."""
+        ext = self.repo.external_bases(ci)
+        if any(b.split(".")[-1] in ("dict", "defaultdict", "OrderedDict", "UserDict", "Dict") for b in ext) and init is None:
+            made = self.builtin("dict", args[1:] if any(b.split(".")[-1] == "defaultdict" for b in ext) else args, kwargs, fr, e, [False] * len(args))
+            for o in made.refs:
+                if isinstance(o, Dict):
+                    o.cls = ci
+                    if any(b.split(".")[-1] == "defaultdict" for b in ext) and args:
+                        o.factory = args[0]
+            return made
+        return None
+
     def construct(self, ci: ClassInfo, args: list[AV], kwargs: dict, fr: Frame, e: ast.AST, tag=None) -> AV:
+        init = self.repo.lookup_method(ci, "__init__")
+        early = self._construct_mapping(ci, init, args, kwargs, fr, e)
+        if early is not None:
+            return early
         r = self.node((fr.ctx, id(e), tag, "rec", ci.fq), lambda: Rec((fr.ctx, id(e), tag, ci.fq), ci))
         r.args = [join(a, b) for a, b in itertools.zip_longest(r.args, args, fillvalue=BOT)]
-        init = self.repo.lookup_method(ci, "__init__")
         if init is not None:
             self.call_function(init, [ref(r), *args], kwargs, fr, e, bound=True)
             return ref(r)
@@ -2201,7 +2243,8 @@ class Interp:
                         self.grow_field(r, nme, d)
             post = self.repo.lookup_method(ci, "__post_init__")
             if post is not None:
-                self.call_function(post, [ref(r)], {}, fr, e, bound=True)
+                initvars = [nme for c in reversed(self.repo.mro(ci)) for nme, ann in c.ann_attrs.items() if "InitVar" in ast.unparse(ann)]
+                self.call_function(post, [ref(r), *[r.fields.get(nme, BOT) for nme in initvars]], {}, fr, e, bound=True)
         return ref(r)
 
     def call_function(self, fi: FuncInfo, args: list[AV], kwargs: dict, fr: Frame, e: ast.AST, bound: bool = False, closure: dict | None = None, star: list | None = None, direct: bool = False) -> AV:
@@ -2356,18 +2399,23 @@ class Interp:
             self.patterns[p.key] = p
         return out
 
-    def regex_call(self, how: str, pats: list[Pattern], subject: AV, fr: Frame, e: ast.AST) -> AV:
+    def regex_call(self, how: str, pats: list[Pattern], subject: AV, fr: Frame, e: ast.AST, span: list[AV] | None = None) -> AV:
         outs = []
+        span = span or []
         for p in pats:
             if self.recording:
                 key = (fr.ctx, id(e), p.key)
                 old = self.sites.get(key)
-                self.sites[key] = Site(p, join(old.subject, subject) if old else subject, how, fr.fi, e)
-            if how in ("search", "match", "fullmatch") and subject.concrete:
+                # `pattern.search(text, pos)` with a moving start position is a hand-written finditer
+                site_how = "finditer" if how == "search" and span else how
+                st = Site(p, join(old.subject, subject) if old else subject, site_how, fr.fi, e, old.calls if old else set())
+                st.calls.add((subject.consts, tuple(x.consts for x in span)))
+                self.sites[key] = st
+            if how in ("search", "match", "fullmatch") and subject.concrete and all(x.concrete and len(x.consts) == 1 for x in span):
                 vals = []
                 for s_ in subject.values():
                     try:
-                        vals.append(getattr(re.compile(p.text, p.flags), how)(s_))
+                        vals.append(getattr(re.compile(p.text, p.flags), how)(s_, *[x.values()[0] for x in span]))
                     except OP_ERRORS as exc:
                         self.op_failed(exc)
                 outs.append(consts(vals))
@@ -2487,7 +2535,8 @@ class Interp:
             pats = [x for x in recv.refs if isinstance(x, Pattern)]
             if how in ("search", "match", "fullmatch", "finditer", "findall", "split", "sub", "subn"):
                 subj = args[1] if how in ("sub", "subn") and len(args) > 1 else a0
-                return self.regex_call(how, pats, subj, fr, e)
+                span = list(args[1:3]) if how in ("search", "match", "fullmatch") else None
+                return self.regex_call(how, pats, subj, fr, e, span)
             return self.unknown_value(name, *args)
         if name.startswith("match."):
             how = name[6:]
@@ -2526,7 +2575,13 @@ class Interp:
                     t.items = [self.group_value(m, i + 1) for i in range(ng)]
                     outs.append(ref(t))
                 elif how == "expand":
-                    outs.append(replace(self.group_value(m, None), consts=frozenset()))
+                    tv = a0.single()
+                    refs_ = re.findall(r"\\(\d+)|\\g<(\w+)>", tv.v) if tv is not None and isinstance(tv.v, str) else None
+                    if refs_:
+                        parts_ = [self.group_value(m, int(num) if num else (int(nm) if nm.isdigit() else nm)) for num, nm in refs_]
+                        outs.append(replace(join(*parts_), consts=frozenset()))
+                    else:
+                        outs.append(replace(self.group_value(m, None), consts=frozenset()))
                 elif how in ("start", "end"):
                     outs.append(TOPV)
                 elif how == "span":
@@ -2994,6 +3049,16 @@ class Interp:
                 sv = env[fr.fi.param_names[0]]
                 return ref(self.memo(("superobj", fr.ctx, id(e), sv.plain()), lambda: Super((fr.ctx, id(e)), fr.cls, sv)))
             return self.unknown_value("super() outside a method")
+        if name in ("object.__setattr__", "setattr") and len(args) == 3:
+            nm = args[1].single()
+            for nd in a0.refs:
+                if isinstance(nd, Rec):
+                    if nm is not None and isinstance(nm.v, str):
+                        self.grow_field(nd, nm.v, args[2])
+                    else:
+                        for f in list(nd.fields) or ["?"]:
+                            self.grow_field(nd, f, args[2])
+            return NONE
         if name.startswith("object."):
             return NONE
         if name == "open":
